@@ -4,7 +4,9 @@ import (
 	"bytes"
 	"context"
 	"database/sql"
+	"encoding/hex"
 	"fmt"
+	"strings"
 	"time"
 
 	"github.com/high-moctane/mocrelay"
@@ -209,6 +211,27 @@ func c16SqliteHistory(r *Rng, g *EvGen, msgs []mocrelay.ClientMsg, gen bool, n i
 	s := startPlain(h)
 	var offered []*mocrelay.Event
 	emit(M{"op": "reset", "cap": 0})
+	// The handler stores events through an asynchronous worker (one goroutine, in arrival order, one event per
+	// batch with this option).  Before every REQ a barrier EVENT (unique regular event of a private author) is
+	// sent and the harness waits until its row is in the table: every earlier EVENT has then been processed, so
+	// the REQ's answer can be judged against the history.
+	nbar := 0
+	lastBarrier := ""
+	waitStored := func(id string) bool {
+		raw, _ := hex.DecodeString(id)
+		for t := 0; t < 4000; t++ {
+			var k int
+			if err := db.QueryRow("select count(*) from events where id = ?", raw).Scan(&k); err == nil && k > 0 {
+				return true
+			}
+			time.Sleep(time.Duration(1+t/50) * time.Millisecond)
+		}
+		return false
+	}
+	send := func(m mocrelay.ClientMsg, barrier bool) {
+		rs, stalled := s.step(m)
+		emit(M{"op": "sqlmsg", "msg": cmsgJ(m), "out": smsgsJ(rs), "stalled": stalled, "barrier": barrier})
+	}
 	for i := 0; (gen && i < n) || (!gen && i < len(msgs)); i++ {
 		var m mocrelay.ClientMsg
 		if gen {
@@ -216,8 +239,26 @@ func c16SqliteHistory(r *Rng, g *EvGen, msgs []mocrelay.ClientMsg, gen bool, n i
 		} else {
 			m = msgs[i]
 		}
-		rs, stalled := s.step(m)
-		emit(M{"op": "sqlmsg", "msg": cmsgJ(m), "out": smsgsJ(rs), "stalled": stalled})
+		if ev, ok := m.(*mocrelay.ClientEventMsg); ok && strings.HasPrefix(ev.Event.ID, "ba55") {
+			lastBarrier = ev.Event.ID
+		}
+		if _, ok := m.(*mocrelay.ClientReqMsg); ok {
+			if gen {
+				nbar++
+				b := &mocrelay.Event{ID: fmt.Sprintf("ba55%060x", nbar), Pubkey: "ba55" + strings.Repeat("0", 60), CreatedAt: 1, Kind: 1,
+					Tags: []mocrelay.Tag{}, Content: "barrier", Sig: strings.Repeat("0", 128)}
+				send(&mocrelay.ClientEventMsg{Event: b}, true)
+				lastBarrier = b.ID
+			}
+			synced := true
+			if lastBarrier != "" {
+				synced = waitStored(lastBarrier)
+			}
+			rs, stalled := s.step(m)
+			emit(M{"op": "sqlmsg", "msg": cmsgJ(m), "out": smsgsJ(rs), "stalled": stalled, "synced": synced && lastBarrier != ""})
+			continue
+		}
+		send(m, false)
 	}
 	s.stop()
 }
